@@ -275,5 +275,33 @@ check(
     ],
 )
 
+
+# ---- 12. conditions `a OR b` written without parentheses: WHEN MATCHED AND a OR b  ==  matched AND (a OR b) ---------------------
+BOR = ("bare_or", SF1, ("cmp", ("t", "v"), "=", ("lit", "b")))
+check(
+    "bare OR is an ordinary OR for the reference; an unjoined target row with v='b' is NOT deleted nor counted",
+    run([(1, "a"), (2, "b"), (5, "b")], [(1, "S1", 1), (2, "S2", 0), (3, "S3", 1)], (("delete", BOR),)),
+    ([(5, "b")], {"delete": 2}),
+)
+check("bare OR renders without parentheses", M.sql_expr(BOR, "t", "s"), "s.f = 1 OR t.v = 'b'")
+check("... the ordinary OR with", M.sql_expr(("or",) + BOR[1:], "t", "s"), "(s.f = 1 OR t.v = 'b')")
+check(
+    "render of a bare-OR clause",
+    c12.render((("D", "bor_t"), ("I", None, "cols")), "plain"),
+    "MERGE INTO t USING s ON t.k = s.k WHEN MATCHED AND s.f = 1 OR t.v = 'b' THEN DELETE "
+    "WHEN NOT MATCHED THEN INSERT (k, v) VALUES (s.k, s.v)",
+)
+ast = c12.clauses_ast((("D", "bor_t"),))
+check("leak predicate: unjoined target row satisfying the right operand -> counts differ, rows do not", c12.bare_or_leak([(1, "a"), (5, "b")], [(1, "S1", 1)], T, ast), (True, False))
+check("leak predicate: no such row -> readings agree", c12.bare_or_leak([(1, "a"), (5, "a")], [(1, "S1", 1)], T, ast), (False, False))
+ast = c12.clauses_ast((("D", "bor_s"), ("I", None, "cols")))
+check("leak predicate: unjoined source row with f=1 claimed by the earlier MATCHED clause -> not inserted", c12.bare_or_leak([(1, "a")], [(3, "S3", 1)], T, ast), (True, True))
+check("... f NULL: not claimed", c12.bare_or_leak([(1, "a")], [(3, "S3", None)], T, ast), (False, False))
+ast = c12.clauses_ast((("I", None, "cols"), ("D", "bor_s")))
+check("... NOT MATCHED clause first: it keeps the row", c12.bare_or_leak([(1, "a")], [(3, "S3", 1)], T, ast), (False, False))
+ast = c12.clauses_ast((("I", "bor_n", "cols"),))
+check("leak predicate: joined pair with s.k = 2 claimed by the NOT MATCHED clause", c12.bare_or_leak([(2, "b")], [(2, "S2", 1)], T, ast), (True, True))
+check("every bare-OR list is valid and has exactly one such clause", all(M.valid_clause_list(c12.clauses_ast(x)) and sum(1 for c in x if c[1] and c[1].startswith("bor_")) == 1 for x in c12.BARE_OR_LISTS), True)
+
 print(f"\n{len(FAILS)} failed" if FAILS else "\nall passed")
 sys.exit(1 if FAILS else 0)
